@@ -65,7 +65,10 @@ pub struct Scene {
     pub rich: Vec<bool>,
     /// Some((a, b, gap)): body a's box is aligned with ITS OWN frame (tight local bounding box, centred where its
     /// world box is) and the small body b hovers `gap` above its +y face (in a's frame)
-    pub aligned_pair: Option<(usize, usize, f64)>,
+    /// (the fourth entry: 0 = as described; 1 = b sits off a CORNER of a, `gap` away along each of the three axes of
+    ///  a's frame - nearer than `gap * sqrt(3)` it cannot be; 2 = a is a flat plate (a quad of two or four triangles in
+    ///  its own x-z plane, no thickness) and b hovers `gap` above it)
+    pub aligned_pair: Option<(usize, usize, f64, u8)>,
 }
 
 impl Scene {
@@ -107,27 +110,39 @@ pub struct Built {
 
 /// Build the RobotBody so that at joint vector q0 (poses from `kin`) every body sits in its world box.
 /// mesh of a box given directly in the body's own frame (tight local bounding box)
-fn aligned_mesh(c_local: [f64; 3], h: [f64; 3], rich: bool) -> TriMesh {
+fn aligned_mesh(c_local: [f64; 3], h: [f64; 3], rich: bool, flat: bool) -> TriMesh {
+    if flat {
+        let c = c_local;
+        let mut v = vec![[c[0] - h[0], c[1], c[2] - h[2]], [c[0] + h[0], c[1], c[2] - h[2]], [c[0] + h[0], c[1], c[2] + h[2]], [c[0] - h[0], c[1], c[2] + h[2]]];
+        let t: Vec<[u32; 3]> = if rich { v.push(c); vec![[0, 1, 4], [1, 2, 4], [2, 3, 4], [3, 0, 4]] } else { vec![[0, 1, 2], [0, 2, 3]] };
+        return TriMesh::new(v.iter().map(|p| Point3::new(p[0] as f32, p[1] as f32, p[2] as f32)).collect(), t).expect("plate mesh");
+    }
     let (v, t) = box_vertices(&WBox { c: c_local, h }, rich);
     TriMesh::new(v.iter().map(|p| Point3::new(p[0] as f32, p[1] as f32, p[2] as f32)).collect(), t).expect("box mesh")
 }
 
 pub fn build(scene: &Scene, kin: &dyn Kinematics, q0: &Joints, base_pose: &Isometry3<f64>, safety: SafetyDistances) -> RobotBody {
     let poses = kin.forward_with_joint_poses(q0);
-    let pose_of = |id: usize| -> Option<Isometry3<f64>> { if id < 6 { Some(poses[id]) } else if id == TOOL { Some(poses[5]) } else if id == BASE { Some(*base_pose) } else { None } };
+    // environment objects get a non-trivial own pose as well (every third one stands as it was modelled: identity)
+    let env_pose = |k: usize| -> Isometry3<f64> {
+        if k % 3 == 2 { Isometry3::identity() } else { Isometry3::new(nalgebra::Vector3::new(0.3 * k as f64, -0.2, 0.1), nalgebra::Vector3::new(0.0, 0.0, 0.4 * (k as f64 + 1.0))) }
+    };
+    let pose_of = |id: usize| -> Option<Isometry3<f64>> { if id < 6 { Some(poses[id]) } else if id == TOOL { Some(poses[5]) } else if id == BASE { Some(*base_pose) } else { Some(env_pose(id - ENV0)) } };
     // the aligned pair (if any and if body a is part of the robot): a's mesh directly in its frame, b placed above it
     let mut override_mesh: Vec<(usize, TriMesh)> = Vec::new();
     let mut boxes = scene.boxes.clone();
-    if let Some((a, b, gap)) = scene.aligned_pair {
+    if let Some((a, b, gap, how)) = scene.aligned_pair {
         if let Some(pa) = pose_of(a) {
             let (ia, ib) = (scene.idx(a), scene.idx(b));
             let wc = boxes[ia].c;
             let cl = pa.inverse().transform_point(&Point3::new(wc[0], wc[1], wc[2]));
-            let h = boxes[ia].h;
-            override_mesh.push((a, aligned_mesh([cl.x, cl.y, cl.z], h, scene.rich[ia])));
+            let mut h = boxes[ia].h;
+            if how == 2 { h[1] = 0.0; }
+            override_mesh.push((a, aligned_mesh([cl.x, cl.y, cl.z], h, scene.rich[ia], how == 2)));
             let hb = boxes[ib].h;
             let reach = (hb[0] * hb[0] + hb[1] * hb[1] + hb[2] * hb[2]).sqrt();
-            let above = pa.transform_point(&Point3::new(cl.x, cl.y + h[1] + gap + reach, cl.z));
+            let at = if how == 1 { Point3::new(cl.x + h[0] + gap + reach, cl.y + h[1] + gap + reach, cl.z + h[2] + gap + reach) } else { Point3::new(cl.x, cl.y + h[1] + gap + reach, cl.z) };
+            let above = pa.transform_point(&at);
             boxes[ib].c = [above.x, above.y, above.z];
         }
     }
@@ -145,8 +160,7 @@ pub fn build(scene: &Scene, kin: &dyn Kinematics, q0: &Joints, base_pose: &Isome
     let mut k = 0;
     while scene.ids.contains(&(ENV0 + k)) {
         let i = scene.idx(ENV0 + k);
-        // environment objects get a non-trivial own pose as well
-        let pose = Isometry3::new(nalgebra::Vector3::new(0.3 * k as f64, -0.2, 0.1), nalgebra::Vector3::new(0.0, 0.0, 0.4 * (k as f64 + 1.0)));
+        let pose = env_pose(k);
         env.push(CollisionBody { mesh: local_mesh(&boxes[i], scene.rich[i], &pose), pose: pose.cast() });
         k += 1;
     }
